@@ -190,6 +190,12 @@ func c16Enumerate(tier string, yield func(any)) {
 		}
 	}
 	// one run, three entities, the same authority text under the kinds dns, mail and url (top level / admission level)
+	// every text member with white space at its ends or inside: the text is carried as written
+	for m := 0; m < 4; m++ {
+		for v := range c16SpaceTexts {
+			yield(&c16Case{Kind: "spaces", NP: m, PP: v})
+		}
+	}
 	yield(&c16Case{Kind: "samename", PP: 0})
 	yield(&c16Case{Kind: "samename", PP: 1})
 	// registration numbers over the PrintableString repertoire and outside it, alone and next to the other members
@@ -297,6 +303,56 @@ func c16Counts(x *engine.Ctx, c *c16Case) {
 		x.Violation("C16/admission/profession-info-count", fmt.Sprintf("%d profession infos configured (number %d without any member), the extension carries %d: %x", c.NP, c.PP, count, exts[0].Value))
 	}
 	x.Outcome("count compared")
+}
+
+// texts whose white space is part of the value (a YAML block scalar keeps its final line break; a quoted scalar keeps its blanks)
+var c16SpaceTexts = []string{" Kammer A ", "Kammer B\n", "\tKammer C", "Kammer  D", "Kammer E ", " ", "Kammer\nF", "KAMMER g"}
+
+// c16Spaces: member NP (0 naming authority text of the admission, 1 of the profession info, 2 profession item,
+// 3 all three at once with different texts) takes the text PP.
+func c16Spaces(x *engine.Ctx, c *c16Case) {
+	val := c16SpaceTexts[c.PP]
+	other := c16SpaceTexts[(c.PP+1)%len(c16SpaceTexts)]
+	third := c16SpaceTexts[(c.PP+2)%len(c16SpaceTexts)]
+	pi := refcfg.ProfessionInfo{ProfessionItems: []string{"Item"}}
+	ad := refcfg.Admissions{}
+	switch c.NP {
+	case 0:
+		ad.NamingAuthority = &refcfg.NamingAuthority{Text: refcfg.S(val)}
+	case 1:
+		pi.NamingAuthority = &refcfg.NamingAuthority{Text: refcfg.S(val)}
+	case 2:
+		pi.ProfessionItems = []string{val, "Item"}
+	case 3:
+		ad.NamingAuthority = &refcfg.NamingAuthority{Oid: refcfg.S("1.2.276.0.76.3.1.1"), Text: refcfg.S(val)}
+		pi.NamingAuthority = &refcfg.NamingAuthority{Url: refcfg.S("http://naming.example"), Text: refcfg.S(other)}
+		pi.ProfessionItems = []string{third, val}
+	}
+	ad.ProfessionInfos = []refcfg.ProfessionInfo{pi}
+	adm := &refcfg.Admission{Admissions: []refcfg.Admissions{ad}}
+	cfg := &refcfg.CertCfg{Path: "ent.yaml", Subject: "CN=adm", KeyAlg: "P-224", Exts: []refcfg.Ext{{Kind: refcfg.KADM, ADM: adm}}}
+	d := &Dir{Certs: []*refcfg.CertCfg{cfg}}
+	g := Generate(d, func(w *simfs.World) { w.Put("ent.pem", FixtureKeyPEM("P-224-0")) }, drive.Default)
+	x.Nontrivial(fmt.Sprintf("spaces %d %d", c.NP, c.PP))
+	if g.Res.Panic != "" {
+		x.Violation("C16/panic/"+g.Res.PanicSite, g.Res.Panic)
+		return
+	}
+	if !g.Res.OK() {
+		x.Violation("C16/run-failed kind=spaces", fmt.Sprintf("member %d text %q: %v", c.NP, val, g.Res.Err()))
+		return
+	}
+	diffs, _, err := g.CompareEntity(d, "ent", "")
+	if err != nil {
+		x.Violation("C16/no-certificate", err.Error())
+		return
+	}
+	for _, df := range diffs {
+		if df.Owner == "C16" {
+			x.Violation(df.Class+" [text with white space]", fmt.Sprintf("member %d text %q: %s", c.NP, val, df.Detail))
+		}
+	}
+	x.Outcome("texts with white space compared")
 }
 
 // registration numbers: inside the PrintableString repertoire (every special character of it), and outside it
@@ -409,6 +465,10 @@ func c16Exec(x *engine.Ctx, cc any) {
 	}
 	if c.Kind == "count" {
 		c16Counts(x, c)
+		return
+	}
+	if c.Kind == "spaces" {
+		c16Spaces(x, c)
 		return
 	}
 	if c.Kind == "regnum" {
@@ -556,7 +616,7 @@ func init() {
 	register(&engine.Check{
 		ID:          "C16",
 		Level:       "exploration",
-		Rule:        "one admission x one profession info over the full product: top-level authority {none,ip,dns,mail,url} x admission authority (5) x admission naming authority subsets of {oid,url,text} (all 8) x profession naming authority (same) x professionOids {none,1,2} x registrationNumber {none,set} x addProfessionInfo {none,!binary,!null,!empty,1000-byte !binary}, item sets incl. non-ASCII; plus 1..3 admissions x 1..3 profession infos with each of 22 single-member variants placed at every position against default neighbours, with two variants (8 x 8, a third of them in quick) at every ordered pair of positions using position-dependent values, 22 fully populated trees per shape, and every string-, OID- and list-valued member at 25 lengths around the 127/128 and 255/256 DER length-form boundaries. Each through a whole run; the value must equal the reference DER encoding of CommonPKI AdmissionSyntax (explicit [0]/[1] wrappers, IA5String url, UTF8String text/items, PrintableString registration number, OCTET STRING info, GeneralName tags [1]/[2]/[6]/[7]). non-trivial = distinct case; 12 registration numbers (every special character of the PrintableString repertoire; 8 values outside it, which must be refused or still be written as PrintableString); one run over three entities whose admissions differ only in the GeneralName kind (dns, mail, url) of an authority carrying the same text",
+		Rule:        "one admission x one profession info over the full product: top-level authority {none,ip,dns,mail,url} x admission authority (5) x admission naming authority subsets of {oid,url,text} (all 8) x profession naming authority (same) x professionOids {none,1,2} x registrationNumber {none,set} x addProfessionInfo {none,!binary,!null,!empty,1000-byte !binary}, item sets incl. non-ASCII; plus 1..3 admissions x 1..3 profession infos with each of 22 single-member variants placed at every position against default neighbours, with two variants (8 x 8, a third of them in quick) at every ordered pair of positions using position-dependent values, 22 fully populated trees per shape, and every string-, OID- and list-valued member at 25 lengths around the 127/128 and 255/256 DER length-form boundaries. Each through a whole run; the value must equal the reference DER encoding of CommonPKI AdmissionSyntax (explicit [0]/[1] wrappers, IA5String url, UTF8String text/items, PrintableString registration number, OCTET STRING info, GeneralName tags [1]/[2]/[6]/[7]). non-trivial = distinct case; 12 registration numbers (every special character of the PrintableString repertoire; 8 values outside it, which must be refused or still be written as PrintableString); one run over three entities whose admissions differ only in the GeneralName kind (dns, mail, url) of an authority carrying the same text; the naming-authority text of the admission, of the profession info, a profession item, and all three at once, with each of 8 texts whose white space is part of the value (blanks at either end, a final line break, a leading tab, two inner blanks, a single blank, an inner line break) and one in upper case",
 		Bound:       map[string]string{"admissions": "<=3", "profession infos": "<=3"},
 		Assumptions: []string{"an empty naming authority, an empty professionItems list and an empty professionOids list have no agreed encoding and are not in the alphabet"},
 		Budget:      budgets(quickBudget, thoroughBudget),
